@@ -204,12 +204,25 @@ def gen_case(rnd, direction=None, n_max=12, klass='wellformed', fixed=None, exte
             t['spent'] = 1
             if direction == 'fwd' and rnd.random() < 0.5:
                 t['end'] = base - td(days=400)
+            elif direction == 'bwd' and rnd.random() < 0.6:
+                t['end'] = base + td(days=rnd.choice([-400, -3, 5, 40]))
+    if direction == 'fwd':
+        for i, t in enumerate(tasks):
+            if not ch[i] and t['milestone'] and rnd.random() < 0.25:
+                t['start'] = base + td(days=rnd.randint(-20, 20))      # stale date on a milestone: must be replaced
+            elif fixed and not ch[i] and not t['milestone'] and t['start'] is None and rnd.random() < 0.04:
+                t['end'] = base - td(days=rnd.randint(20, 40))         # completed, only the end date recorded
     exts = []
     if externals and direction == 'fwd' and rnd.random() < 0.2 and n:
         for k in range(rnd.randint(1, 2)):
             s_ = base + td(days=rnd.randint(-30, 10))
             exts.append({'id': 100 + k, 'start': s_, 'end': s_ + td(days=rnd.randint(0, 12), hours=rnd.choice([0, 7])),
-                         'succ': sorted(rnd.sample(range(n), rnd.randint(1, min(2, n)))), 'estimate': rnd.choice([None, 3])})
+                         'succ': sorted(rnd.sample(range(n), rnd.randint(1, min(2, n)))), 'estimate': rnd.choice([None, 3]),
+                         'in_other_wbs': rnd.random() < 0.5})
+    if externals and direction == 'fwd' and rnd.random() < 0.12 and n:
+        # a task outside the WBS that waits for members (never visited by the forward pass; part of the link structure)
+        exts.append({'id': 150, 'start': None, 'end': None, 'succ': [], 'pred_of_ext': sorted(rnd.sample(range(n), rnd.randint(1, min(2, n)))),
+                     'estimate': None, 'in_other_wbs': rnd.random() < 0.5})
     resources = {}
     for nm in res_names:
         if rnd.random() < 0.75:
@@ -251,10 +264,17 @@ def build(case, budget=None, log_queries=False):
     for s_, p_ in case['links']:
         objs[s_].predecessors.append(objs[p_])
     exts = []
+    b.other_wbs = None
     for e in case.get('externals') or []:
         x = Task(e['id'], f"ext{e['id']}", start=e['start'], end=e['end'], estimate=e.get('estimate'))
+        if e.get('in_other_wbs'):
+            if b.other_wbs is None:
+                b.other_wbs = WBS()
+            b.other_wbs.roots.append(x)
         for i in e['succ']:
             objs[i].predecessors.append(x)
+        for i in e.get('pred_of_ext') or []:
+            x.predecessors.append(objs[i])
         exts.append(x)
     nleaves = sum(1 for i in range(len(objs)) if not objs[i].children) or 1
     n = len(objs)
@@ -289,5 +309,6 @@ def wbs_snapshot(w, extra=()):
                     tuple(p.id for p in t.predecessors), tuple(s.id for s in t.successors),
                     tuple(sorted((k, repr(v)) for k, v in t.to_dict().items())), id(t.wbs)))
     for x in extra:
-        out.append(('ext', x.id, tuple(sorted((k, repr(v)) for k, v in x.to_dict().items())), tuple(p.id for p in x.predecessors)))
+        # link lists of outside tasks are shared with the clone by design (C10), so only their own fields are compared
+        out.append(('ext', x.id, tuple(sorted((k, repr(v)) for k, v in x.to_dict().items()))))
     return out
